@@ -117,7 +117,7 @@ PROPS["C07"] = dict(
         "stub: Backtrace::capture -> disabled; <anyhow::Error as Drop>::drop -> no-op; fault-free harnesses: "
         "<anyhow::Error as From<io::Error>>::from is cut (roll must not fail on a fault-free disk: asserted)",
         "hook FixedWindowRoller::verif_new builds the roller value directly (Compression::None); the builder's own "
-        "checks are decided separately by harness c07_build",
+        "checks are decided separately by the harnesses c07_build_*",
     ],
     level_text="Bounded model checking of the real roller code over every initial directory state of the window "
                "(each managed name present or absent) for the listed (base, count, pattern) instances and 1-3 successive "
@@ -128,7 +128,11 @@ PROPS["C07"] = dict(
                "base/count/pattern are enumerated instances; the directory state is the solver's.",
     design_ref="DESIGN.md section 5, C07",
     harnesses=[
-        H("c07_window::c07_build", tier="thorough", instance="FixedWindowRollerBuilder::build on 4 pattern shapes", symbolic="pattern shape, base and count over all of u32", bound="unwind 12", timeout=3600, mem_gb=14),
+        H("c07_window::c07_build_index", instance="FixedWindowRollerBuilder::build on /l/a.{}: accepted", symbolic="base and count over all of u32", bound="unwind 12", timeout=1800, mem_gb=12, unwindset=BT_LOOPS),
+        H("c07_window::c07_build_index_witness", kind="witness", timeout=1800, mem_gb=12, unwindset=BT_LOOPS),
+        H("c07_window::c07_build_noindex", instance="build on /l/a (no placeholder): rejected", symbolic="base, count", bound="unwind 12", timeout=1800, mem_gb=12, unwindset=BT_LOOPS),
+        H("c07_window::c07_build_gz", tier="thorough", instance="build on /l/a.{}.gz: accepted exactly when the gzip feature is compiled in", symbolic="base, count", bound="unwind 12", timeout=1800, mem_gb=12, unwindset=BT_LOOPS),
+        H("c07_window::c07_build_zst_dir", tier="thorough", instance="build on /l/{}/a.zst: accepted exactly when the zstd feature is compiled in", symbolic="base, count", bound="unwind 12", timeout=1800, mem_gb=12, unwindset=BT_LOOPS),
         H("c07_window::c07_delete", instance="DeleteRoller", symbolic="existence of an unrelated archive", bound="unwind 8", **_c07_common),
         H("c07_window::c07_file_b0_c0", instance="a.{} base 0 count 0", symbolic="window state, bystander", bound="unwind 8", **_c07_common),
         H("c07_window::c07_file_b0_c1", instance="a.{} base 0 count 1", symbolic="window state, bystander", bound="unwind 8", **_c07_common),
@@ -933,3 +937,7 @@ PROPS["C06"]["outside"] = ("size accounting over histories of several appends wi
                            "the real roller behind the real trigger in one harness (C07 decides the rollers)")
 PROPS["C06"]["assumptions"] += _fs_assumptions
 PROPS["C06"]["level_note"] = "Trusted: Kani/CBMC/CaDiCaL, E3/E4 for the appender instances."
+
+PROPS["C15P"] = dict(PENDING["C15"])
+SORT_LOOPS = [(r"^core::slice::sort::.*<log4rs::config::Logger", "*", 2)]  # the logger list of these instances is empty: the sort is a phantom
+PROPS["C15P"]["harnesses"] = [H("c15_swap::swap_min", unwindset=TREE_REC(0, add=1) + SORT_LOOPS + BT_LOOPS, timeout=1500, mem_gb=12), H("c15_swap::swap_min_reentrant", unwindset=TREE_REC(0, add=1) + SORT_LOOPS + BT_LOOPS, timeout=1500, mem_gb=12)]
